@@ -271,7 +271,7 @@ pub fn check(prop: &str, tier: Tier, seed: u64) -> i32 {
                 seed,
                 CheckSpec {
                     level: "exploration",
-                    rule: "seeded (graph, host loop, script, firing plan) tuples over the four flavours: hosts are iter_out/iter_in/`for e in &node`/iter and bfs/dfs/pfs-min/pfs-max x search/search_path/search_cycle and pre/postorder x search_nodes/search_edges with for_each or filter (transposed too); the script (edge operations on the cursor's endpoints and other nodes through every handle provenance, queries, nested iteration and searches, container calls) fires at simulator-chosen steps; oracle per step: no panic/self-deadlock, the yielded edge is live now with true endpoints and value, injected calls obey the reference model, bounded termination after the last injection, graph = model after the loop; a host that fails without any injection is not a verdict; distinct = distinct (flavour, graph, host, script, plan) tuples".into(),
+                    rule: "seeded (graph, host loop, script, firing plan) tuples over the four flavours: hosts are iter_out/iter_in/`for e in &node`/iter (plain `for` loops, and driven through size_hint() around every next() or through .map(body).collect()) and bfs/dfs/pfs-min/pfs-max x search/search_path/search_cycle and pre/postorder x search_nodes/search_edges with for_each or filter (transposed too); the script (edge operations on the cursor's endpoints and other nodes through every handle provenance, queries, nested iteration and searches, container calls) fires at simulator-chosen steps, optionally with one operation that adds no edge (nested search of the host's kind, nested iteration, query, disconnect of the edge under the cursor, to_vec) fired at EVERY step; oracle per step: no panic/self-deadlock, the yielded edge is live now with true endpoints and value, injected calls obey the reference model, bounded termination after the last injection, graph = model after the loop read through handles taken before and during the loop; a host that fails without any injection is not a verdict; distinct = distinct (flavour, graph, host, script, plan) tuples".into(),
                     assumptions: vec![
                         "one task: re-entrancy is the interleaving under test; in the sync flavours the lock seam turns a guard kept across a step into a reported self-deadlock".into(),
                         "'yields' = handed to the loop body or closure; edges inside a returned path are not required to be still alive".into(),
@@ -304,7 +304,7 @@ pub fn check(prop: &str, tier: Tier, seed: u64) -> i32 {
                 seed,
                 CheckSpec {
                     level: "exploration",
-                    rule: "seeded graphs (1-40 nodes, self-loops, parallel edges in both orientations, distinct values) in each of the four containers, JSON and CBOR; simulated hash seeds on the serialising and on the deserialising side (container iteration order), seeded insertion order; three configurations kept apart: in memory, through simulated streams with benign behaviour only (short writes/reads, EINTR), through streams with one hard fault (I/O error or write-zero/EOF at byte k); oracle: same keys, node values, per-node ordered out-list (directed) or incident multiset (undirected), copy satisfies the mirror/symmetry invariant; under a hard fault Err or an equal graph, never a panic; distinct = distinct (flavour, wire, graph, serialising order, deserialising order) tuples".into(),
+                    rule: "seeded graphs (1-40 nodes, self-loops, parallel edges in both orientations, distinct values; a fifth with a hub of 6-40 edges; a third reshaped by disconnect/isolate/try_connect after construction) in each of the four containers, JSON and CBOR; simulated hash seeds on the serialising and on the deserialising side (container iteration order), seeded insertion order; three configurations kept apart: in memory, through simulated streams with benign behaviour only (short writes/reads, EINTR), through streams with one hard fault (I/O error or write-zero/EOF at byte k); oracle: same keys, node values, per-node ordered out-list (directed) or incident multiset (undirected), copy satisfies the mirror/symmetry invariant; under a hard fault Err or an equal graph, never a panic; distinct = distinct (flavour, wire, graph, serialising order, deserialising order) tuples".into(),
                     assumptions: vec!["containers are closed under neighbours".into(), "a benign stream behaviour the wire library itself cannot cope with (checked on plain tuples) is not a gdsl verdict".into()],
                 },
                 vec![p],
@@ -337,7 +337,7 @@ pub fn check(prop: &str, tier: Tier, seed: u64) -> i32 {
                 seed,
                 CheckSpec {
                     level: "exploration",
-                    rule: "seeded histories of container calls (insert of fresh keys, of present keys and of a distinct node object with a present key, remove, get, index, contains, len, is_empty, to_vec, iter, roots/leaves/orphans, to_dot, to_dot_with_attr with seeded attribute callbacks, rebuilding the container as a new instance with another simulated hash seed) interleaved with edge operations on members and non-members through container handles; compared call by call with a BTreeMap model; views compared as key sets against the reference multigraph; DOT text parsed into node and edge statements; distinct = distinct (member set, abstract edge state, call kind) triples".into(),
+                    rule: "seeded histories of container calls (insert of fresh keys, of present keys and of a distinct node object with a present key, remove, get, index, contains, len, is_empty, to_vec, iter, roots/leaves/orphans, to_dot, to_dot_with_attr with seeded attribute callbacks, rebuilding the container as a new instance via new()/default()/with_capacity() with another simulated hash seed; insert/remove while the container holds the node's only handle; an edge between two node objects with the same key) interleaved with edge operations on members and non-members through container handles; compared call by call with a BTreeMap model; views compared as key sets against the reference multigraph; DOT text parsed into node and edge statements; distinct = distinct (member set, abstract edge state, call kind) triples".into(),
                     assumptions: vec!["keys are usize; node identity is observed through the node value's id".into()],
                 },
                 vec![p],
@@ -352,7 +352,7 @@ pub fn check(prop: &str, tier: Tier, seed: u64) -> i32 {
                 seed,
                 CheckSpec {
                     level: "exploration",
-                    rule: "seeded histories over the four flavours: build (cycles, self-loops, parallel edges), take handles (clones, iterated edges, bfs/dfs/pfs paths, cycles and found nodes, pre/postorder node and edge lists, containers, to_vec and scc output), then drop node handles and result handles one by one in a simulator-chosen order (sync flavours: a simulator-chosen subset of the drops on another thread); node and edge values are registered in a per-run registry; after every drop: no value of a node with a live handle is released, held results stay usable, nothing dropped twice; after the last drop: every node value and every edge-value instance released exactly once; distinct = distinct (flavour, history, handles taken, drop order, thread placement) tuples".into(),
+                    rule: "seeded histories over the four flavours: build (cycles, self-loops, parallel edges), take handles (clones, iterated edges, neighbour lookups from every node to every key, bfs/dfs/pfs paths, cycles and found nodes, pre/postorder node and edge lists, containers, to_vec and scc output), then drop node handles and result handles one by one in a simulator-chosen order (sync flavours: a simulator-chosen subset of the drops on another thread); node and edge values are registered in a per-run registry; after every drop: no value of a node with a live handle is released, held results stay usable, nothing dropped twice; after the last drop: every node value and every edge-value instance released exactly once; distinct = distinct (flavour, history, handles taken, drop order, thread placement) tuples".into(),
                     assumptions: vec!["iteration is only performed while every neighbour is alive (the library's documented precondition)".into(), "drops on another thread are sequential (joined), the racing of reference counts is not simulated".into()],
                 },
                 vec![p],
